@@ -38,19 +38,15 @@ theorem C15_pgn_59392 : agreesOnFields pair_59392 layout_59392 = true := by deci
 theorem C15_pgn_59904 : agreesOnFields pair_59904 layout_59904 = true := by decide +kernel
 theorem C15_pgn_60928 : agreesOnFields pair_60928 layout_60928 = true := by decide +kernel
 theorem C15_pgn_126996 : agreesOnFields pair_126996 layout_126996 = true := by decide +kernel
-/-- PGN 126993 Heartbeat: the sequence counter is placed as published. The interval field is written inside a
-conditional (`> MaxHeartbeatInterval` → error code), which the layout language cannot express: it is covered by
-the harness' table-driven encoder only, where it currently FAILS (known finding `C15:126993:interval`: the
-library writes milliseconds, the published unit is 10 ms; the fix belongs to property C12). -/
-theorem C15_pgn_126993_partial :
-    agreesOnFields pair_126993 (layout_126993.filter (·.name != "interval")) = true := by decide +kernel
-/-- On the setter path for intervals up to `MaxHeartbeatInterval` (`pair_126993_e`) the interval parameter IS written
-to the published bits, but as a plain integer: the library has no resolution of 10 (ms per bit) there. This is the
-kernel-checked form of the known finding `C15:126993:interval`. -/
-theorem C15_pgn_126993_interval_mismatch :
-    bitsAgree pair_126993_e ⟨"interval", 0, 16, false, 10, 0, .param "timeInterval_ms"⟩ 0 = true ∧
-    recAgree pair_126993_e ⟨"interval", 0, 16, false, 10, 0, .param "timeInterval_ms"⟩ 0 = false ∧
-    agreesOnFields pair_126993_e (layout_126993.filter (·.name != "interval")) = true := by decide +kernel
+/-- PGN 126993 Heartbeat, setter path for intervals up to `MaxHeartbeatInterval` (`pair_126993_e`): the interval is
+written to the published 16 bits as `timeInterval_ms / 10`, i.e. with the published resolution of 10 ms per bit
+(side record ⟨offset 0, 2 bytes, unsigned, 10⟩ on the integer parameter), and the sequence counter follows. -/
+theorem C15_pgn_126993 : agreesOnFields pair_126993_e layout_126993 = true := by decide +kernel
+/-- … on the other path (interval above the limit, `pair_126993_t`) the interval field holds the published
+"out of range" code 0xfffe and the sequence counter is placed as published. -/
+theorem C15_pgn_126993_out_of_range :
+    (List.range 16).all (fun i => srcAt pair_126993_t.setter i == some (if i = 0 then .zero else .one)) = true ∧
+    agreesOnFields pair_126993_t (layout_126993.filter (·.name != "interval")) = true := by decide +kernel
 
 /-! data PGNs -/
 theorem C15_pgn_126992 : agreesOnFields pair_126992 layout_126992 = true := by decide +kernel
